@@ -11,8 +11,9 @@ Relative proofs (library function = dependency spec, the arguments passed are ch
   sync_do_map / select_or_reject skeletons, prepare_map, prepare_select_or_reject, make_attrgetter,
   make_multi_attrgetter, ignore_case, and the async twins (same result as the sync function on
   auto_to_list(value); no write to an object the filter did not allocate).
-Bounded stand-ins (real functions, exhaustive small inputs, never reported as proved): every filter
-against an executable specification, sync and async, with argument-unchanged checks.
+Bounded (never reported as proved): groupby for 0..3 groups of symbolic size, join under autoescape for 0..2 symbolic
+items, and the native stand-ins of standins/c22_native.py: every filter through Environment.call_filter (sync env,
+async env, async generators) on all small inputs against an executable specification, arguments deep-compared.
 
 Ghost vocabulary for generators: the sequence of yielded values is kept as a symbolic ghost
 (st.ghost["Y"]): for row generators  rows: Int -> (Int -> Obj), lens: Int -> Int, n;  for item
@@ -339,19 +340,22 @@ import re
 _KNOWN = None
 
 
-def known_keys():
-    """finding keys registered for C22 (known_findings.d/c22.json): a native sweep does not report an input that
-    fails only in an already known way"""
+def known_pairs():
+    """(obligation, finding key) pairs registered for C22 in known_findings.d/c22.json"""
     global _KNOWN
     if _KNOWN is None:
         _KNOWN = set()
         p = os.path.join(os.path.dirname(os.path.dirname(os.path.abspath(__file__))), "known_findings.d", "c22.json")
         try:
             for f in json.load(open(p)).get("findings", []):
-                _KNOWN.add(f.get("key"))
+                _KNOWN.add((f.get("obligation"), f.get("key")))
         except OSError:
             pass
     return _KNOWN
+
+
+def known_keys():
+    return {k for _, k in known_pairs()}
 
 
 class Native:
@@ -367,27 +371,36 @@ class Native:
     def case_key(self, w):
         return "other:" + json.dumps(w, sort_keys=True, default=str)
 
-    def sweep(self):
-        """first small input on which the real function violates the specification in a not yet known way"""
-        if not hasattr(self, "_sweep"):
-            self._sweep = None
+    def safe_case(self, w):
+        try:
+            return self.run_case(w)
+        except Exception as ex:  # noqa
+            return True, f"the real function raised {type(ex).__name__}: {ex} where the specification returns a value (input {w})"
+
+    def sweep(self, obligation=None):
+        """first small input on which the real function violates the specification; an input that fails only in an
+        already registered way (known finding) counts only for the obligation it is registered for"""
+        cache = self.__dict__.setdefault("_sweeps", {})
+        ob = re.sub(r"#p\d+$", "", obligation or "")
+        if ob not in cache:
+            cache[ob] = None
             for w in self.cases():
-                try:
-                    v, d = self.run_case(w)
-                except Exception as ex:  # noqa
-                    v, d = True, f"oracle crashed: {type(ex).__name__}: {ex}"
-                if v and self.case_key(w) not in known_keys():
-                    self._sweep = (w, d)
-                    break
-        return self._sweep
+                v, d = self.safe_case(w)
+                if v:
+                    k = self.case_key(w)
+                    if k not in known_keys() or (ob, k) in known_pairs():
+                        cache[ob] = (w, d)
+                        break
+        return cache[ob]
 
     def replay(self, w):
-        v, d = self.run_case(w)
+        v, d = self.safe_case(w)
         if v:
             return v, d
-        sw = self.sweep()
-        if sw is not None:
-            return True, sw[1] + " [the solver's counterexample state is not itself a failing input; failing input found by the small-input sweep]"
+        for w2 in self.cases():
+            v2, d2 = self.safe_case(w2)
+            if v2 and self.case_key(w2) not in known_keys():
+                return True, d2 + " [the solver's counterexample state is not itself a failing input; failing input found by the small-input sweep]"
         return v, d
 
     def finding_key(self, res):
@@ -412,13 +425,13 @@ class GenVC(Native, VC):
             name = f"{m.group(1)}.inv_{m.group(2)}.{self.inv_labels[int(m.group(3))]}"
         r = VC.discharge(self, name, pc, cond, timeout, seed, pre if pre is not None else self._pre, out)
         if r.status == "unknown":
-            sw = self.sweep()
+            sw = self.sweep(name)
             if sw is not None:
                 return Res(name, "refuted", "native-sweep", r.seconds, f"solver undecided ({r.detail[:80]}); the real function fails on {sw[0]}: {sw[1]}"[:600], self.kind, sw[0])
         elif r.status == "refuted" and isinstance(r.witness, dict) and "concretize_error" not in r.witness:
-            v, _ = self.run_case(r.witness)
-            if not v and self.sweep() is not None:
-                r.witness = self.sweep()[0]
+            v, _ = self.safe_case(r.witness)
+            if not v and self.sweep(name) is not None:
+                r.witness = self.sweep(name)[0]
         return r
 
     def paths(self, I):
@@ -464,8 +477,25 @@ class Slice(GenVC):
         """documented size of row i (input items)"""
         return self.q + z3.If(i < self.r, 1, 0)
 
-    def fill_code(self, i):  # helper invariant: what the loop does (not the specification)
+    variant = "documented"
+
+    def fill_code(self, i):
+        """helper invariant only (not the specification): which rows the loop has given a fill value.  Two candidate
+        invariants are tried: the documented behaviour, and the behaviour of the code as found (every row from
+        n mod s on, even when n mod s = 0); the postconditions are the same for both."""
+        if self.variant == "documented":
+            return self.fill_spec(i)
         return z3.And(self.fill.t != NONE, i >= self.r)
+
+    def run(self, tier, seed):
+        rs = []
+        for v in ("documented", "as_found"):
+            self.variant = v
+            self.__dict__.pop("_sweeps", None)
+            rs = VC.run(self, tier, seed)
+            if all(r.status == "discharged" for r in rs if ".inv_" in r.name):
+                break
+        return rs
 
     def fill_spec(self, i):
         """row i is one short of the longest row"""
@@ -1211,7 +1241,8 @@ class ThenCall:
     def paths(self, I):
         pre, outs = VC.paths(self, I)
         self._pre = pre
-        self.item = sym("item", "obj")
+        if not hasattr(self, "item"):
+            self.item = sym("item", "obj")
         from pyvc.contract import Outcome
         res = []
         for o in outs:
@@ -1276,6 +1307,64 @@ class AttrGetter(ThenCall, RelVC):
         if g(obj) != "D" and not isinstance(g(obj), Undefined):
             return True, "default handling differs"
         return False, "attribute tables agree"
+
+
+class AttrGetterChain(ThenCall, RelVC):
+    """make_attrgetter for an arbitrary list of parts (unbounded; _prepare_attribute_parts is an abstract callee whose
+    result is a sequence of symbolic length): the returned callable computes
+        chain(0) = item,  chain(i+1) = D(environment.getitem(chain(i), parts[i])),  result = postprocess(chain(n))
+    with D(v) = default if default is not None and v is Undefined, else v."""
+    fn = F.make_attrgetter
+    inv_labels = ("item_is_chain_k",)
+
+    def __init__(self):
+        super().__init__("C22.make_attrgetter[any parts]")
+
+    def D(self, v):
+        return z3.If(z3.And(self.default.t != NONE, isinst_fn(Undefined)(v)), self.default.t, v)
+
+    def configure(self, I):
+        RelVC.configure(self, I)
+        I.specs.pop("jinja2.filters:make_attrgetter")
+        install_auto_havoc(I)
+        c = self
+
+        def parts(I_, st, args, kwargs, node):
+            st.trace.append(Event("call", "_prepare_attribute_parts", args, kwargs, c.parts, lineno=getattr(node, "lineno", None)))
+            return [(st, c.parts)]
+
+        I.specs["jinja2.filters:_prepare_attribute_parts"] = parts
+
+        def inv(ctx):
+            return [to_term(one(carried(ctx, "obj", 1)), "obj") == c.chain(ctx.k)]
+
+        I.loops[("make_attrgetter.<locals>.attrgetter", 0)] = LoopSpec(inv, havoc=gen_havoc(None), name="parts_loop")
+
+    def setup(self, I, st):
+        self.env, self.attribute = sym("environment", "obj"), sym("attribute", "obj")
+        self.pp, self.default = sym("postprocess", "obj"), sym("default", "obj")
+        self.parts = A.sseq(st, "parts", "obj")
+        self.item = sym("item", "obj")
+        self.chain = z3.Function("lookup_chain", I_, Obj)
+        i = z3.Int("ci")
+        st.assume(self.chain(0) == self.item.t,
+                  z3.ForAll([i], z3.Implies(z3.And(0 <= i, i < self.parts.n),
+                                            self.chain(i + 1) == self.D(GI(self.chain(i), z3.Select(self.parts.arr, i))))))
+        return [self.env, self.attribute, self.pp, self.default], {}
+
+    def p_result(self, pre, out):
+        if out.raised:
+            return False
+        e = one(A.calls(out, "_prepare_attribute_parts"))
+        if e is None or not same(list(e.args), [self.attribute]):
+            return False
+        end = self.chain(self.parts.n)
+        return to_term(out.value, "obj") == z3.If(self.pp.t != NONE, APPLY(self.pp.t, end), end)
+
+    posts = [("lookup_chain_over_all_parts", p_result), ("frame", RelVC.p_frame)]
+
+    def run_case(self, w):
+        return AttrGetter.run_case(self, w)
 
 
 class MultiAttrGetter(ThenCall, RelVC):
@@ -1425,6 +1514,10 @@ class DictSort(RelVC):
         return w["by"] == self.by or (self.by == "bogus" and w["by"] not in ("key", "value"))
 
 
+class GroupTupleModel(tuple):
+    """model of a jinja2.filters._GroupTuple(grouper, list) value"""
+
+
 class GroupBy(RelVC):
     """sync_do_groupby / async do_groupby relative to `sorted` and `itertools.groupby`:
     groupby(sorted(value, key=K), K) with K = the attribute (default applied), lower-cased unless case sensitive; one
@@ -1462,7 +1555,7 @@ class GroupBy(RelVC):
             return [(st, v)]
 
         I.specs[("fn", id(F.groupby))] = gb
-        I.specs[("fn", id(F._GroupTuple))] = lambda I_, st, args, kwargs, node: [(st, tuple(args))]
+        I.specs[("fn", id(F._GroupTuple))] = lambda I_, st, args, kwargs, node: [(st, GroupTupleModel(args))] if len(args) == 2 and not kwargs else [(st, tuple(args))]
 
     def setup(self, I, st):
         self.env, self.value, self.attribute = sym("environment", "obj"), sym("value", "obj"), sym("attribute", "obj")
@@ -1499,7 +1592,7 @@ class GroupBy(RelVC):
         conj = []
         seen = set()
         for (key, sq), tup in zip(st.ghost["groups"], h.items):
-            if not (isinstance(tup, tuple) and len(tup) == 2 and isinstance(tup[1], Ref) and tup[1].id in st.allocated and tup[1].id not in seen):
+            if not (type(tup) is GroupTupleModel and len(tup) == 2 and isinstance(tup[1], Ref) and tup[1].id in st.allocated and tup[1].id not in seen):
                 return False
             seen.add(tup[1].id)
             conj.append(list_eq(st, tup[1], sq.arr, sq.n))
@@ -1818,6 +1911,100 @@ class JoinPlain(RelVC):
 
     def want_case(self, w):
         return w.get("mode") == "sync"
+
+
+HAS_HTML = z3.Function("has___html__", Obj, z3.BoolSort())
+
+
+class JoinAuto(RelVC):
+    """sync_do_join with autoescape on, for a list of exactly n items: when the separator has no __html__ the items
+    without __html__ are converted with str() in a COPY of the list (the argument is not written), the separator is
+    escape(d) iff some item has __html__ (else str(d)), and the result is separator.join(copy); when the separator
+    has __html__: soft_str(d).join(map(soft_str, value))."""
+    fn = F.sync_do_join
+    fnname = "join"
+    kind = "bounded"
+
+    def __init__(self, n):
+        self.n = n
+        self.bound_text = f"value is a list of exactly {n} items (items, separator, their __html__ support symbolic; real source)"
+        super().__init__(f"C22.sync_do_join[autoescape,items={n}]")
+
+    def configure(self, I):
+        RelVC.configure(self, I)
+        install_enumerate(I)
+        lib(I, map, "map")
+        lib(I, F.escape, "escape")
+        lib(I, F.soft_str, "soft_str")
+        I.specs["str.join"] = A.abstract_fn("str.join", returns="str")
+        base = I.specs["getattr_obj"]
+
+        def getattr_obj(I_, st, args, kwargs, node):
+            o, name = args
+            if name == "__html__":
+                out = []
+                for s2, b in I_.fork_bool(st, HAS_HTML(o.t)):
+                    out.append((s2, BoundMethod(o, name)) if b else (s2, Raised(Exc(AttributeError, ("__html__",), origin=getattr(node, "lineno", None)))))
+                return out
+            return base(I_, st, args, kwargs, node)
+
+        I.specs["getattr_obj"] = getattr_obj
+
+    def setup(self, I, st):
+        self.ctx, self.d = sym("eval_ctx", "obj"), sym("d", "obj")
+        st.assume(TRUTHY(attr_fn("autoescape")(self.ctx.t)))
+        self.items = [sym(f"item{i}", "obj") for i in range(self.n)]
+        self.value = st.alloc(HList(items=list(self.items)), initial=True)
+        return [self.ctx, self.value, self.d, None], {}
+
+    def p_result(self, pre, out):
+        if out.raised:
+            return False
+        st = out.st
+        any_html = z3.Or(*[HAS_HTML(x.t) for x in self.items]) if self.items else z3.BoolVal(False)
+        soft = A.calls(out, "soft_str")
+        if soft:
+            j = one(A.calls(out, "method:join"))
+            m = one(A.calls(out, "map"))
+            ok = (j is not None and m is not None and len(soft) == 1 and same(list(soft[0].args), [self.d]) and same(j.args[0], soft[0].result)
+                  and j.args[1] is m.result and m.args[0] is F.soft_str and same(m.args[1], self.value) and out.value is j.result)
+            return z3.And(HAS_HTML(self.d.t), ok)
+        j = one(A.calls(out, "method:join") + A.calls(out, "str.join"))
+        if j is None or out.value is not j.result or not isinstance(j.args[1], Ref) or j.args[1] == self.value or j.args[1].id not in st.allocated:
+            return False
+        h = st.get(j.args[1])
+        if not (isinstance(h, HList) and h.concrete and len(h.items) == self.n):
+            return False
+        conj = [z3.Not(HAS_HTML(self.d.t))]
+        from pyvc.smt import str2obj
+        for x, got in zip(self.items, h.items):
+            conj.append(to_term(got, "obj") == z3.If(HAS_HTML(x.t), x.t, str2obj(M_.py_str_obj(x.t))))
+        esc = A.calls(out, "escape")
+        if j.name == "method:join":
+            conj.append(any_html)
+            conj.append(len(esc) == 1 and same(list(esc[0].args), [self.d]) and same(j.args[0], esc[0].result))
+        else:
+            conj.append(z3.Not(any_html))
+            conj.append(not esc and isinstance(j.args[0], Sym) and j.args[0].t.eq(M_.py_str_obj(self.d.t)))
+        return z3.And(*conj)
+
+    def p_arg(self, pre, out):
+        """the list passed in still holds the original items"""
+        h = out.st.get(self.value)
+        return frame_ok(out) and h.concrete and len(h.items) == self.n and all(a is b for a, b in zip(h.items, self.items))
+
+    posts = [("raises_nothing", RelVC.p_total), ("escaped_join_of_a_copy", p_result), ("argument_list_unchanged", p_arg)]
+
+    def want_case(self, w):
+        return w.get("mode") == "sync" and w.get("autoescape")
+
+    def run(self, tier, seed):
+        rs = VC.run(self, tier, seed)
+        for r in rs:
+            r.kind = "bounded"
+            if r.status == "discharged":
+                r.status = "bounded-ok"
+        return rs
 
 
 # ---- map / select / reject -------------------------------------------------------------------------------
@@ -2152,6 +2339,63 @@ class AsyncDelegate(RelVC):
         return w.get("mode") != "sync"
 
 
+class Dispatch(RelVC):
+    """The @async_variant wrapper registered in FILTERS: in an async environment (is_async of the environment reached
+    through the first argument) it calls the async twin, otherwise the sync filter, with the same arguments; when the
+    sync filter takes no environment/eval-context/context argument the leading eval context is dropped."""
+
+    def __init__(self, which):
+        self.which, self.fnname = which, which
+        self.fn = getattr(F, "do_" + which)
+        self.sync = getattr(F, "sync_do_" + which)
+        self.twin = async_twin(self.fn)
+        super().__init__(f"C22.async_variant.dispatch[{which}]")
+
+    def closure(self, I):
+        from pyvc import extract
+        node, module = extract.nested_function_ast("jinja2.async_utils:async_variant", "wrapper")
+        c = Closure(node, module, [], "async_variant.<locals>.decorator.<locals>.wrapper")
+        c.live = self.fn  # free variables (is_async, need_eval_context, async_func, normal_func) from the live cells
+        return c
+
+    def configure(self, I):
+        RelVC.configure(self, I)
+        DATA_ATTRS.add("is_async")
+        I.inline.add("jinja2.async_utils:async_variant.<locals>.decorator.<locals>.is_async")
+        I.specs[("fn", id(self.sync))] = A.abstract_fn("sync_filter")
+        I.specs[("fn", id(self.twin))] = A.abstract_fn("async_filter")
+        I.specs[f"jinja2.filters:{self.sync.__qualname__}"] = A.abstract_fn("sync_filter")
+        I.specs[f"jinja2.filters:{self.twin.__qualname__}"] = A.abstract_fn("async_filter")
+
+    def setup(self, I, st):
+        from jinja2.utils import _PassArg
+        self.pass_arg = _PassArg.from_obj(self.sync)
+        self.args = tuple(sym(f"a{i}", "obj") for i in range(3))
+        self.kwargs = st.alloc(HDict(items={"kw": sym("kw", "obj")}))
+        local = {"args": self.args, "kwargs": self.kwargs}
+        for nm, cell in zip(self.fn.__code__.co_freevars, self.fn.__closure__):
+            local[nm] = cell.cell_contents  # the wrapper's free variables: the live closure cells
+        return "locals", local
+
+    def p_dispatch(self, pre, out):
+        from jinja2.utils import _PassArg
+        if out.raised:
+            return False
+        s_, a_ = A.calls(out, "sync_filter"), A.calls(out, "async_filter")
+        e = one(s_ + a_)
+        if e is None or out.value is not e.result:
+            return False
+        want = self.args[1:] if self.pass_arg is None else self.args
+        if not (same(tuple(e.args), want) and list(e.kwargs) == ["kw"] and same(e.kwargs["kw"], out.st.get(self.kwargs).items["kw"])):
+            return False
+        first = self.args[0].t
+        holder = first if self.pass_arg is _PassArg.environment else attr_fn("environment")(first)
+        is_async = TRUTHY(attr_fn("is_async")(holder))
+        return is_async if a_ else z3.Not(is_async)
+
+    posts = [("async_twin_iff_async_environment", p_dispatch), ("frame", RelVC.p_frame)]
+
+
 class AsyncSum(RelVC):
     """async do_sum: start + f(v0) + f(v1) + ... (left fold, = sum(map(f, iterable), start)), f = identity or the
     attribute getter; the `start` argument (like every argument) is not modified in place."""
@@ -2294,7 +2538,7 @@ class Bounded(Native, FnTask):
         o = N.ORACLES[self.oname]
         t0 = time.time()
         n, bad = 0, {}
-        for w in o.cases(7):
+        for w in o.cases(7 if tier == "quick" else 8):
             n += 1
             try:
                 v, d = o.run(w)
@@ -2325,25 +2569,61 @@ class Bounded(Native, FnTask):
 TASKS = (
     [Slice(), Batch(), Unique()]
     + [IgnoreCase(w) for w in ("str", "int", "none", "tuple")]
-    + [AttrGetter(a, pp) for a in AttrGetter.ATTRS for pp in (False, True)]
+    + [AttrGetterChain()] + [AttrGetter(a, pp) for a in AttrGetter.ATTRS for pp in (False, True)]
     + [MultiAttrGetter(a, pp) for a in MultiAttrGetter.ATTRS for pp in (False, True)]
     + [Sort()] + [DictSort(by) for by in ("key", "value", "bogus")]
     + [GroupBy(g, a) for a in (False, True) for g in (0, 1, 2, 3)]
     + [MinOrMax(), MinMaxWrapper("min"), MinMaxWrapper("max"), Sum(), First(False), First(True), Last(), ListF()]
     + [Reverse(w) for w in ("str:", "str:a", "str:abC", "list", "generator", "opaque")]
-    + [JoinPlain(), MapGen(False), MapGen(True), SelectGen(False), SelectGen(True)]
+    + [JoinPlain()] + [JoinAuto(n) for n in (0, 1, 2)] + [MapGen(False), MapGen(True), SelectGen(False), SelectGen(True)]
     + [SelectWrapper(w, a) for w in ("select", "reject", "selectattr", "rejectattr") for a in (False, True)]
     + [PrepareMap(s) for s in PrepareMap.SHAPES]
     + [PrepareSelect(la, n) for la in (False, True) for n in (0, 1, 2, 3)]
     + [AsyncDelegate(w) for w in ("slice", "unique", "join", "list")]
     + [AsyncSum(False), AsyncSum(True)]
+    + [Dispatch(w) for w in ("slice", "unique", "groupby", "sum", "first", "join", "list", "map", "select", "reject", "selectattr", "rejectattr")]
     + [FnTask("C22", "C22.tables", table_registry, "table", replay_table)]
     + [Bounded(o) for o in N.ORACLES]
 )
 
 META = {
     "level": "proof",
-    "explanation": "",
-    "assumptions": [],
-    "trusted_base": [],
+    "explanation": (
+        "Real source of jinja2/filters.py under sidecar contracts. UNBOUNDED proofs (loop invariants, array encodings, any "
+        "input length and argument value): sync_do_slice (s rows, sizes floor(n/s)+1 for i < n mod s, rows are consecutive "
+        "segments covering the input, at most one extra item per row and it is the fill value, fill exactly on the short "
+        "rows), do_batch (ceil(n/c) rows, full rows in order, last row and its padding), sync_do_unique (the yields are "
+        "the first occurrences in order; key = attribute getter, lower-cased iff not case sensitive), sync_do_map / do_map, "
+        "select_or_reject / async_select_or_reject (yields = the selected items in order), async do_sum (left fold from "
+        "start; no in-place update of `start`), _min_or_max, sync_do_first / do_first, do_last, sync_do_list, do_reverse, "
+        "make_attrgetter over any list of parts. RELATIVE proofs (the library function is a dependency spec, the call made "
+        "and its arguments are checked): do_sort, do_dictsort (key function probed on a generic pair), sync_do_sum, "
+        "sync_do_join without autoescape, do_min/do_max, the eight select/reject wrappers (modfunc probed), prepare_map, "
+        "prepare_select_or_reject, ignore_case, make_attrgetter / make_multi_attrgetter per attribute shape (table of 7 / 6 "
+        "strings), async do_slice / do_unique / do_join / do_list (= the sync filter on auto_to_list(value)). Every contract "
+        "has a frame clause (state.written within state.allocated; yielded rows fresh and never written after the yield). "
+        "BOUNDED (reported as bounded, never as proved): sync_do_groupby / async do_groupby for 0..3 groups of symbolic size, "
+        "sync_do_join under autoescape for lists of 0..2 symbolic items, and the native stand-ins: every filter through "
+        "Environment.call_filter in a sync and an async environment (lists, generators, async generators) on all sequences "
+        "up to length 7 over a 3-letter alphabet x argument combinations against executable specifications written from the "
+        "statement, with deep-copy comparison of the arguments. Tables: FILTERS registry and async_variant pairing. "
+        "Recursive specification functions (prefix sums S, i*linecount M, rank, first index of a key, partial sums, lookup "
+        "chain) are introduced by conservative definitions over the input only. A solver-undecided obligation is retried on "
+        "the real function (small-input sweep); a failing input turns it into a refutation with that input as witness."),
+    "assumptions": [
+        "A1 integers are mathematical; slices >= 1, linecount >= 1 (the documented domain of slice / batch)",
+        "A-EQ keys are hashable and `==`/hash on them coincide with identity of abstract atoms",
+        "A7 await is transparent; async iteration over auto_aiter(x) yields the items of x in order; auto_to_list(x) is a new list of them",
+        "inputs are finite iterables modelled as lists (iteration protocol of generators assumed); environment.getitem is a function of (item, part)",
+        "for a type with in-place addition, a + b is a new object (never the `start` argument); `a += b` has the value of a + b",
+        "generator bodies have no effects that depend on laziness except the row aliasing that `rows_frozen` checks",
+    ],
+    "trusted_base": [
+        "z3 5.1 / cvc5", "pyvc symbolic executor (python ast -> VCs) with the module-local extensions of contracts/c22.py "
+        "(ghost yield sequence, range, div/mod, list repeat/extend, auto havoc of loop-carried locals)",
+        "dependency specs: sorted (stable sorted permutation by key/reverse), itertools.groupby (adjacent equal keys, non-empty groups), "
+        "itertools.chain, min / max (first extreme item by key), sum (left fold with +), map, reversed, enumerate, list, set, str.join, str.lower, "
+        "typing.cast, markupsafe.escape / soft_str, jinja2.async_utils.auto_aiter / auto_to_list / auto_await, Environment.getitem / undefined / call_filter / call_test",
+        "standins/c22_native.py executable specifications (bounded stand-ins and replay oracle)",
+    ],
 }
